@@ -108,11 +108,20 @@ def vanish_filters(ctx, s):
         s.add("S-REL", fn, "vanish-query-unrestricted", "find_events", info["sp"], PROVED if ok else VIOLATION,
               "scraping allowed" if ok else "vanish queries with scraping disallowed (the author query could be refused)", b)
     # the ids removed come from the query results
-    for b, info in s.calls(fn, names={"pocket_db::Store::remove_event"}):
+    for owner, b, info, site in s.calls_deep(fn, names={"pocket_db::Store::remove_event"}):
+        if owner is not fn:
+            s.add("S-REL", fn, "vanish-removes-results", "remove_event(closure)", info["sp"], UNDECIDED,
+                  "the removal happens in a closure handed to an iterator adaptor; that its argument is a query result is not decided", site)
+            continue
         idv = info["args"][1]
         ok = idv[0] == "call" and idv[1].endswith("::id") and contains_value(idv, lambda y: y[0] == "call" and y[1].endswith("::next"))
-        s.add("S-REL", fn, "vanish-removes-results", "remove_event", info["sp"], PROVED if ok else VIOLATION,
-              "removes the id of an event yielded by the query result" if ok else "removes something other than the queried events", b)
+        own = contains_value(idv, lambda y: y == ("param", 2)) and not contains_value(idv, lambda y: y[0] == "call" and y[1].endswith("::next"))
+        const = idv[0] in ("const", "bytes")
+        s.add("S-REL", fn, "vanish-removes-results", "remove_event", info["sp"],
+              PROVED if ok else (VIOLATION if (own or const) else UNDECIDED),
+              "removes the id of an event yielded by the query result" if ok else
+              ("removes something other than the queried events (the request event's own id or a constant)" if (own or const) else
+               "the removed id is not syntactically the id of a query result (collected or passed through a helper): not decided"), b)
 
 
 def vanish_both_passes(ctx, s):
